@@ -77,10 +77,10 @@ Qed.
 Definition w_tws_stop_unknown : list input := [CInit INone; CSubscribe 1 PQuery; ERet 0 RData false; CComplete 1].
 Definition w_tws_stop_before_init : list input := [CComplete 1].
 Definition w_tws_emit_after_cancel : list input := [CInit INone; CSubscribe 1 PQuery; CComplete 1; ERet 0 RData false].
-Definition w_tws_sub_error : list input := [CInit INone; CSubscribe 1 PSub; ERet 0 RErr false; EFlush 0].
+Definition w_tws_sub_error : list input := [CInit INone; CSubscribe 1 PSub; ERet 0 RErr true; EFlush 0].
 Definition w_gws_stop_unknown : list input := [CStart 1 PQuery; ERet 0 RData false; CStop 1].
 Definition w_gws_emit_after_cancel : list input := [CStart 1 PSub; CStop 1; EFlush 0].
-Definition w_gws_sub_error : list input := [CStart 1 PSub; ERet 0 RErr false; ERet 0 RData false].
+Definition w_gws_sub_error : list input := [CStart 1 PSub; ERet 0 RErr true; ERet 0 RData true].
 
 Lemma refuted_witnesses :
   (causes_of TWS w_tws_stop_unknown = [KStopUnknown]
